@@ -139,6 +139,38 @@ def periph_convention(chk, repo, rule):
     chk.need(rule, n, 150, 'centre patterns')
 
 
+def neighbour_wildcards(chk, repo, rule, grammar=None):
+    """Which centre an atom is must not depend on the radical state of its
+    neighbours: in a centre pattern every atom after the first (the centre)
+    carries the `?` suffix (any number of unpaired electrons).  Confirmed on
+    all 724 such atoms of the nine schemes; the one exception is the H atom
+    of the H2 pattern."""
+    import re
+    pat = re.compile(r'(?<![A-Za-z])([A-Z][a-z]?|[$&X])([?.:+*-]*)\s+'
+                     r'labeled\s+(\w+)')
+    n = 0
+    for lib in libs_of(repo):
+        bad = []
+        for i, p in enumerate(lib.scheme.get('patterns') or []):
+            text = str(p.get('connectivity') or '')
+            if '{' not in text:
+                continue
+            atoms = pat.findall(text[text.index('{') + 1:])
+            for j, (el, suf, lab) in enumerate(atoms):
+                if j == 0:
+                    continue
+                n += 1
+                if suf != '?' and el != 'H':
+                    bad.append('patterns[%d] (%s): neighbour %s%s labeled %s'
+                               % (i, p.get('center_name'), el, suf, lab))
+        chk.ob(rule, not bad, lib.rel(lib.scheme_path), None,
+               key='neighbour-wildcards:' + lib.name, qualname='patterns',
+               what='%s: the neighbours in a centre pattern match any '
+                    'radical state (`?` suffix)' % lib.name,
+               found='; '.join(bad[:4]))
+    chk.need(rule, n, 400, 'neighbour atoms of centre patterns')
+
+
 def quantity_dimensions(chk, repo, rule):
     from .props import c12, c14
     db = c14.unit_db(repo)
@@ -164,8 +196,17 @@ def quantity_dimensions(chk, repo, rule):
                 for x in c14.audit_record(tc, schema, units, db, kq, [],
                                           rel):
                     if 'is not a' in x or 'does not parse' in x \
-                            or 'not a temperature' in x:
+                            or 'not a temperature' in x \
+                            or 'is not in the schema' in x:
+                        # (a misspelt member is ignored with a warning and
+                        # its schema default used instead)
                         bad.append('%s: %s' % (name, x))
+                for txt in _quantity_strings(tc):
+                    if not _one_magnitude(txt):
+                        bad.append('%s: %r does not read as one number '
+                                   'followed by a unit (juxtaposed factors '
+                                   'multiply: "10 .5 cal" is 5 cal)'
+                                   % (name, txt))
             if recs:
                 chk.ob(rule, not bad, rel, None, key='dimensions:' + rel,
                        qualname='groups',
@@ -174,6 +215,49 @@ def quantity_dimensions(chk, repo, rule):
                             'loads to a plain number' % rel,
                        found='; '.join(bad[:5]))
     chk.need(rule, nrec, 500, 'correlation records')
+
+
+def _quantity_strings(tc):
+    out = []
+
+    def walk(v):
+        if isinstance(v, str):
+            out.append(v)
+        elif isinstance(v, (list, tuple)):
+            for x in v:
+                walk(x)
+    for k, v in (tc or {}).items():
+        walk(v)
+    return out
+
+
+_NUM = r'[-+]?(?:\d+\.?\d*|\.\d+)(?:[eE][-+]?\d+)?'
+
+
+def _one_magnitude(text):
+    """`<number> <unit expression>` where the unit expression contains
+    numbers only as exponents (after ^) -- or a bare number."""
+    import re
+    t = text.strip()
+    m = re.match(_NUM, t)
+    if not m:
+        return True         # no leading number: not this rule's business
+    rest = t[m.end():]
+    if not rest.strip():
+        return True
+    if not rest[:1].isspace() and not rest[:1].isalpha() \
+            and rest[:1] not in '*/(':
+        return False
+    # numbers in the rest must follow '^' (optionally '^(' and a sign)
+    for mm in re.finditer(_NUM, rest):
+        pre = rest[:mm.start()].rstrip()
+        if pre.endswith('^') or pre.endswith('^(') or re.search(
+                r'\^\(?[-+]?$', pre):
+            continue
+        if re.search(r'[A-Za-z]$', rest[:mm.start()]):
+            return False    # 'm2' style is not the library's syntax either
+        return False
+    return True
 
 
 def _span(tc, db, tdef):
@@ -275,7 +359,13 @@ def uq_consistency(chk, repo, rule):
                         'symmetric, positive semi-definite; RMSE valid '
                         'wherever a basis entry is' % rel,
                    found='; '.join(bad[:5]))
-    chk.need(rule, nuq, 3, 'uncertainty blocks')
+    # the property speaks of the three shipped libraries with uncertainty
+    # data: a block that is no longer reached (its include line lost) is a
+    # violation, not a smaller inventory
+    chk.ob(rule, nuq >= 3, None, None, key='three-uncertainty-blocks',
+           qualname='UQ',
+           what='at least three shipped libraries reach an uncertainty '
+                'block through their includes', found='%d' % nuq)
 
 
 def names_disjoint(chk, repo, rule):
